@@ -72,7 +72,11 @@ def run(facts, rep, ctx):
             continue
 
         def aff(t):
-            r = affine(t, None)
+            # `x as u16` is not x: positions and lengths are usize, a detour through a narrower type wraps
+            for x_ in walk(t):
+                if x_[0] == "cast" and x_[2] in ("u8", "u16", "u32", "i8", "i16", "i32") and x_[1][0] not in ("const",):
+                    return ({("narrowed", norm(x_)): 1}, 0)
+            r = affine(t, None, narrow_opaque=True)
             if r is None:
                 return None
             return ({("n" if enc.classify(k) == "n" else k): v for k, v in r[0].items()}, r[1])
